@@ -31,7 +31,10 @@ _reg(SchedProp('C08', ['Ea.C08.reset_announces', 'Ea.C08.reset_accepted', 'Ea.C0
 _reg(SchedProp('C09', ['Ea.C09.queue_sorted', 'Ea.C09.paused_never_queued', 'Ea.C09.queue_nodup',
                        'Ea.C09.insort_keeps_sorted', 'Ea.dSpec', 'Ea.oSpec', 'Ea.sleepLoop_ordered',
                        'Ea.C09.executions_in_due_order']))
-_reg(SchedProp('C10', ['Ea.C10.callbacks_only_log', 'Ea.C10.wakeup_keeps_invariant', 'Ea.C10.trigger_failure_no_reexec']))
+_reg(SchedProp('C10', ['Ea.C10.callbacks_only_log', 'Ea.C10.wakeup_keeps_invariant', 'Ea.C10.trigger_failure_no_reexec',
+                       'Ea.step_clean', 'Ea.cSpec', 'Ea.C10.runOps_clean', 'Ea.C10.failures_have_no_other_effect',
+                       'Ea.C10.clean_keeps', 'Ea.C01.due_jobs_executed_in_wakeup', 'Ea.C01.timer_armed_for_head',
+                       'Ea.C09.executions_in_due_order']))
 
 from props_prod import ProdProp  # noqa: E402
 
@@ -74,7 +77,9 @@ from props_sun import SunProp  # noqa: E402
 
 _reg(SunProp(['Ea.C18.ceilSec_spec', 'Ea.C18.sunFind_spec', 'Ea.C18.sunNextRaw_spec', 'Ea.C18.sun_result_is_event',
               'Ea.C18.no_location', 'Ea.C18.sun_same_date', 'Ea.C18.sun_midnight_fires_twice', 'Ea.C18.sun_tries_matches']))
-_reg(SchedProp('C03', ['Ea.C03.reschedule_is_next_occurrence', 'Ea.inv_reachable', 'Ea.C05.getNext_least', 'Ea.C04.getNext_gt', 'Ea.C01.never_early']))
+_reg(SchedProp('C03', ['Ea.C03.reschedule_is_next_occurrence', 'Ea.inv_reachable', 'Ea.C05.getNext_least', 'Ea.C04.getNext_gt', 'Ea.C01.never_early',
+                       'Ea.rSpec', 'Ea.execute_recurring_ok', 'Ea.C03.recurring_round', 'Ea.C02.one_execution_per_announcement',
+                       'Ea.sleepLate_ops']))
 
 from props_pure import PureProp  # noqa: E402
 
